@@ -152,12 +152,17 @@ def gen_bn(streams, max_n=6, min_n=1, max_card=4, max_parents=3, max_joint=4096,
     onehot_rate = r.choice([0.0, 0.0, 0.1, 0.5])
     if tiny_rate is None:
         tiny_rate = 0.0
-    motif = weighted(r, [("random", 6), ("chain", 1), ("collider", 1), ("isolated", 1), ("two_parts", 1), ("star", 1)])
+    motif = weighted(r, [("random", 6), ("chain", 1), ("collider", 1), ("isolated", 1), ("two_parts", 1), ("star", 2)])
+    dup_rate = r.choice([0.0, 0.0, 0.0, 0.6, 0.9])
+    same_card = dup_rate > 0 and r.random() < 0.6
 
     card = []
+    c0 = r.randint(2, max_card)
     for _ in range(n):
         if r.random() < card1_rate:
             card.append(1)
+        elif same_card:
+            card.append(c0)
         else:
             card.append(r.randint(2, max_card))
     # keep the joint small
@@ -207,8 +212,18 @@ def gen_bn(streams, max_n=6, min_n=1, max_card=4, max_parents=3, max_joint=4096,
     if connected:
         _connect(r, n, parents, order, max_parents + 1)
 
-    tables = [gen_table(r, card[v], [card[p] for p in parents[v]], zero_rate=zero_rate,
-                        onehot_rate=onehot_rate, tiny_rate=tiny_rate) for v in range(n)]
+    tables = []
+    for v in range(n):
+        t = None
+        if dup_rate and r.random() < dup_rate:
+            # value-identical CPDs (identical sensors, a likelihood equal to a prior, ...)
+            same = [u for u in range(v) if card[u] == card[v] and [card[p] for p in parents[u]] == [card[p] for p in parents[v]]]
+            if same:
+                t = [list(row) for row in tables[r.choice(same)]]
+        if t is None:
+            t = gen_table(r, card[v], [card[p] for p in parents[v]], zero_rate=zero_rate,
+                          onehot_rate=onehot_rate, tiny_rate=tiny_rate)
+        tables.append(t)
 
     rl = streams.s("labels")
     if force_str_labels:
@@ -227,7 +242,7 @@ def gen_bn(streams, max_n=6, min_n=1, max_card=4, max_parents=3, max_joint=4096,
         "kind": "bn", "n": n, "card": card, "parents": parents, "tables": tables,
         "labels": labels, "states": states, "latents": [],
         "flags": {"motif": motif, "density": density, "zero_rate": zero_rate, "onehot_rate": onehot_rate,
-                  "label_mode": label_mode, "state_mode": smode},
+                  "label_mode": label_mode, "state_mode": smode, "dup_rate": dup_rate},
     }
 
 
@@ -440,3 +455,31 @@ def mn_connected(world):
                 seen.add(b)
                 stack.append(b)
     return len(seen) == n
+
+
+# --------------------------------------------------------------------------------------------------
+# data sets drawn from a BN world by the simulator's own PRNG (ancestral sampling over logical states)
+# --------------------------------------------------------------------------------------------------
+def gen_rows(r, world, nrows, sharpen=False):
+    n = world["n"]
+    order = topo_order(world)
+    card = world["card"]
+    rows = []
+    for _ in range(nrows):
+        x = [0] * n
+        for v in order:
+            col = 0
+            for p in world["parents"][v]:
+                col = col * card[p] + x[p]
+            probs = [world["tables"][v][s][col] for s in range(card[v])]
+            u = r.random()
+            acc = 0.0
+            k = card[v] - 1
+            for s, pr in enumerate(probs):
+                acc += pr
+                if u < acc:
+                    k = s
+                    break
+            x[v] = k
+        rows.append(x)
+    return rows
